@@ -129,9 +129,11 @@ func c16(c *core.Ctx) {
 		case 2:
 			_ = stun.SchemeTypeTURN.String() + stun.ProtoTypeUDP.String()
 		case 3:
-			_ = stun.URI{Scheme: stun.SchemeTypeSTUN, Host: "example.org", Port: 3478, Proto: stun.ProtoTypeUDP}.String()
+			u := stun.URI{Scheme: stun.SchemeTypeSTUN, Host: "example.org", Port: 3478, Proto: stun.ProtoTypeUDP}
+			_ = u.String()
 		case 4:
-			_ = (stun.URI{Scheme: stun.SchemeTypeTURNS}).IsSecure()
+			u := stun.URI{Scheme: stun.SchemeTypeTURNS}
+			_ = u.IsSecure()
 		case 5, 6:
 			// a client that retransmitted a request (20 bytes for i=5, 300 for i=6) and was closed: its buffers are back in
 			// the package's pools. One P, so that the parser below meets them.
